@@ -36,7 +36,7 @@ import types
 
 from vlib import common
 from vlib.common import KResult, Violation, Disagreement, Property
-from vlib.simloop import SimLoop, settle
+from vlib.simloop import SimLoop, WallClockGuard, settle
 
 LETTER = {'D': 'DefaultNamingStrategy', 'K': 'KeepDirectoryStrategy', 'N': 'NumberDuplicateStrategy'}
 NAME_MAX = 255          # = Naming.nameMax of the model; checked against the real temp directory at run time
@@ -262,7 +262,15 @@ class GatedLoop(SimLoop):
     def run_in_executor(self, executor, func, *args):
         fut = self.create_future()
         t = asyncio.current_task(self)
-        self.jobs.append((t.get_name() if t else None, fut, func, args))
+        owner = t.get_name() if t else None
+        if owner is None or not owner.startswith('dl-'):
+            # a call the schedule itself makes into the library (queue(), add() …): nobody would release it
+            try:
+                fut.set_result(func(*args))
+            except BaseException as e:  # noqa
+                fut.set_exception(e)
+            return fut
+        self.jobs.append((owner, fut, func, args))
         return fut
 
     def release(self, name: str) -> bool:
@@ -375,7 +383,7 @@ class _Faults:
 
 
 def _norm_op(op):
-    """['spawn', i] | ['spawn', i, fault, cut] (fault '-', 'm', 'o') | ['release', i]"""
+    """['spawn', i] | ['spawn', i, fault, cut] (fault '-', 'm', 'o') | ['release', i] | ['remove', i] | ['requeue', i]"""
     if op[0] == 'spawn':
         return ('spawn', op[1], op[2] if len(op) > 2 else '-', bool(op[3]) if len(op) > 3 else False)
     return (op[0], op[1], '-', False)
@@ -400,6 +408,8 @@ async def _conc_main(loop: GatedLoop, case: dict, dl: str, tmp: str):
 
     sm.calculate_download_path = recording_calc
     transfers, tasks, cut_now, runs = {}, {}, {}, {}
+    moved_away: set = set()        # completed downloads whose file the user has moved out of the download directory
+    requeued: set = set()          # queue() already called (by a `requeue` op) and the download not started since
     reported: set = set()
     n_dl = len(case['downloads'])
     obs, model_lines = [], [_tree_lines(case['tree'])]
@@ -424,7 +434,8 @@ async def _conc_main(loop: GatedLoop, case: dict, dl: str, tmp: str):
                 continue
             d, n = os.path.split(t.local_path)
             parts = _split_result(dl, d)
-            st = 'r' if not tasks[i].done() else ('c' if t.state.VALUE == TransferState.COMPLETE else 'b')
+            st = 'r' if not tasks[i].done() else ('g' if i in moved_away else
+                                                 'c' if t.state.VALUE == TransferState.COMPLETE else 'b')
             held.append(f"{i}:{enc_path(parts) if parts is not None else 'ABS'}:{enc_name(n)}:{st}")
         obs.append('held ' + ','.join(sorted(held)) + ' fs ' + ','.join(_dump_tree(dl)))
         model_lines.append('dump')
@@ -455,8 +466,12 @@ async def _conc_main(loop: GatedLoop, case: dict, dl: str, tmp: str):
             transfers[i] = tr
         else:                           # started again: the library's own transitions decide what is kept
             tr = transfers[i]
-            await tr.state.queue()
+            if i not in requeued:
+                await tr.state.queue()
             await tr.state.initialize()
+            requeued.discard(i)
+            if tr.local_path is None:
+                moved_away.discard(i)
             if tr.filesize is None:
                 tr.filesize = len(_payload(i))
         held_before = tr.local_path
@@ -464,6 +479,8 @@ async def _conc_main(loop: GatedLoop, case: dict, dl: str, tmp: str):
         n_before = len(choices)
         cut_now[i] = cut
         runs[i] = runs.get(i, 0) + 1
+        # what the peer sends: the rest of the file as the library itself asks for it (the offset it calculates from the
+        # file it is about to append to — a file that is not its own gives an offset that is not its own)
         conn = _StubConnection(_payload(i)[tr.bytes_transfered:], cut)
         if fault != '-':
             faults.arm(fault)
@@ -501,12 +518,45 @@ async def _conc_main(loop: GatedLoop, case: dict, dl: str, tmp: str):
                                     'before the download started (it is not the path that was checked)', case,
                                     observed=lp.replace(dl, '<dl>'), required='path does not exist yet'))
 
+    async def move_away(i: int):
+        """the user moves the file of a COMPLETED download out of the download directory"""
+        tr = transfers.get(i)
+        if (tr is None or not tasks[i].done() or tr.state.VALUE != TransferState.COMPLETE or not tr.local_path
+                or i in moved_away or not os.path.isfile(tr.local_path)):
+            obs.append('noop')
+        else:
+            os.remove(tr.local_path)
+            moved_away.add(i)
+            obs.append('removed')
+        model_lines.append(f'remove {i}')
+
+    async def requeue(i: int):
+        """`TransferManager.queue()` on a download whose task has ended; it is NOT started yet (peer busy / offline)"""
+        tr = transfers.get(i)
+        if tr is not None and tasks[i].done() and i not in requeued:
+            await tm.queue(tr)
+            requeued.add(i)
+            if tr.local_path is None:
+                moved_away.discard(i)
+        obs.append('done')
+        model_lines.append(f'requeue {i}')
+
     for raw in case['schedule']:
         kind, i, fault, cut = _norm_op(raw)
         if kind == 'spawn':
             await start(i, fault, cut)
         elif kind == 'release':
             loop.release(f'dl-{i}')
+        elif kind == 'remove':
+            if not fresh_promised:
+                # a chain that does not end in the number-duplicate strategy lets two downloads hold ONE file (nothing is
+                # promised about them): whose file the user moves away, and who re-creates it when, is not modelled
+                continue
+            await observe()                 # the ends of the tasks are reported before the user looks at the directory
+            await move_away(i)
+        elif kind == 'requeue':
+            await observe()
+            await requeue(i)
         await observe()
     # drain: let every download finish, round-robin
     for _ in range(200):
@@ -528,6 +578,8 @@ async def _conc_main(loop: GatedLoop, case: dict, dl: str, tmp: str):
     # monitor: nothing was clobbered — judged by the bytes that really ended up in the files
     if fresh_promised:
         for i, tr in transfers.items():
+            if i in moved_away:             # its file is where the user has put it
+                continue
             if tr.local_path and tasks[i].done() and tr.state.VALUE == TransferState.COMPLETE:
                 try:
                     data = open(tr.local_path, 'rb').read()
@@ -834,6 +886,26 @@ def _gen_conc_case(rng: random.Random) -> dict:
             for _ in range(rng.choice([0, 12])):
                 sched.append(['release', j])
             sched.append(spawn(j))
+    if rng.random() < 0.35:
+        # the afterlife of a finished download: the user moves the file away and / or queues the download again, it waits
+        # for its peer while other downloads of the same name come and go, then it starts
+        for _ in range(rng.choice([1, 1, 2])):
+            j = rng.choice(spawned)
+            for _ in range(rng.choice([12, 12, 12, 3, 0])):
+                sched.append(['release', j])
+            steps = rng.choice([['remove', 'requeue'], ['remove', 'requeue'], ['requeue'], ['remove'],
+                                ['requeue', 'remove'], ['remove', 'requeue', 'requeue']])
+            for st in steps:
+                sched.append([st, j])
+            others = [i for i in range(n) if i != j]
+            for _ in range(rng.choice([0, 1, 1, 2])):
+                k = rng.choice(others)
+                sched.append(spawn(k))
+                for _ in range(rng.choice([0, 0, 1, 3, 12])):
+                    sched.append(['release', k])
+            sched.append(spawn(j))
+            for _ in range(rng.choice([0, 1, 3])):
+                sched.append(['release', rng.choice(range(n))])
     links = letters.endswith('N')
     outside = sorted({c[-1] for c in compss if _creatable(c[-1])} |
                      {s for c in compss for s in _shortenings(c[-1])[:2]})
@@ -857,6 +929,10 @@ WITNESSES = [
     # fixes/C09-unclaimed-path-kept.patch: the path of a failed claim was kept and used later without a check
     ('C09-same-path-concurrent', {'kind': 'conc', 'strategies': 'DN', 'downloads': ['a\\x.mp3', 'b\\x.mp3'],
                                   'schedule': [['spawn', 0, 'o', False], ['spawn', 1], ['spawn', 0]], 'tree': []}),
+    # a completed download whose file was moved away is queued again and waits; another download takes the free name
+    (None, {'kind': 'conc', 'strategies': 'DN', 'downloads': ['a\\x.mp3', 'b\\x.mp3'],
+            'schedule': [['spawn', 0]] + [['release', 0]] * 12 + [['remove', 0], ['requeue', 0], ['spawn', 1], ['spawn', 0]],
+            'tree': [], 'outside': []}),
     # over-long names: refused by the file system, nothing is claimed, nothing is shared
     (None, {'kind': 'conc', 'strategies': 'DN', 'downloads': ['a\\' + 'W' * 296 + '.mp3', 'b\\' + 'W' * 296 + '.mp3'],
             'schedule': [['spawn', 0], ['spawn', 1], ['spawn', 0]], 'tree': [], 'outside': []}),
@@ -883,7 +959,7 @@ def _eval_case(case):
             obs, vs = _run_chain(case)
             return ['ok'] + obs, vs, _chain_lines(case)
         return _run_conc(case)
-    except Exception as e:       # harness trouble is reported as an observation, not hidden
+    except (Exception, WallClockGuard) as e:       # harness trouble is reported as an observation, not hidden
         return [f'HARNESS-EXC {type(e).__name__}: {e}'], [], ['dump']
 
 
@@ -924,7 +1000,9 @@ class C09(Property):
             "sub-directory). conc cases: 2..3 real _download_file tasks of (mostly) equally named files (30 % over-long "
             "names), start-ups interleaved by a schedule that releases executor calls one at a time; 45 % of them with "
             "OSErrors injected into the claiming step, downloads cut off, and downloads started again after their task "
-            "ended; equally named files NEXT TO the download directory. All from VERIF_SEED. Non-trivial: chain case "
+            "ended; 35 % with the afterlife of a finished download (the user moves the file of a completed download away, the "
+            "download is queued again and waits while other downloads of the same name start, then it starts); equally "
+            "named files NEXT TO the download directory. All from VERIF_SEED. Non-trivial: chain case "
             "with a special or normalisable component / a numbered result / a raise; conc case in which at least two "
             "starts chose, resumed or failed to claim a path. Distinct = distinct canonical case")
     assumptions = [
@@ -933,8 +1011,9 @@ class C09(Property):
         'the download directory is not the root directory and is not reached through a name the peer knows; '
         'sub-directories of it are real directories (a symbolic link to a directory placed there by the user is followed '
         'by design); dangling symbolic links in place of FILES are part of the generated directory contents',
-        'only the library creates or removes entries of the download directory while a download holds a path in it (a '
-        'partial file deleted by hand while its download is paused is re-created on resume without a new check)',
+        'only the library creates or removes entries of the download directory while a download holds a path in it — '
+        'except that the user may move the file of a COMPLETED download away (op `remove`); a PARTIAL file deleted by '
+        'hand while its download is paused is re-created on resume without a new check (outside the quantifier)',
         'os.path.exists / os.listdir / os.makedirs / open agree with the model file system (exercised on real temp '
         'directories, not modelled further); names with an embedded NUL only in the chain cases (the library lets the '
         "ValueError of os.makedirs escape; that is not this property's subject)",
@@ -946,7 +1025,7 @@ class C09(Property):
                 'chain_strategies), utils.split_remote_path, SharesManager.calculate_download_path, os.path.join of the '
                 'result (final path string), the choose-and-claim step of TransferManager._prepare_download_path incl. '
                 'OSErrors (injected, ENAMETOOLONG, a non-directory in the way), which path a download holds over '
-                'complete / cut-off / started-again; exercised but not modelled: the rest of _download_file (state '
+                'complete / cut-off / started-again / file moved away / queued again without being started; exercised but not modelled: the rest of _download_file (state '
                 'machine, aiofiles writes), OS file semantics')
 
     def correspondence(self, seed, tier, model_ok, widen=1):
@@ -1008,6 +1087,8 @@ class C09(Property):
                 res.count('conc:cut-off', sum(1 for o in ops if o[3]))
                 res.count('conc:started-again', sum(1 for k, o in enumerate(ops) if o[0] == 'spawn'
                                                    and any(p[0] == 'spawn' and p[1] == o[1] for p in ops[:k])))
+                res.count('conc:file-moved-away', sum(1 for o in obs if o == 'removed'))
+                res.count('conc:requeued-not-started', sum(1 for o in ops if o[0] == 'requeue'))
             res.violations += vs
             if any(o.startswith('HARNESS-EXC') for o in obs):       # the case could not be driven: nothing was compared
                 res.notes.append(f'harness exception: {obs[-1]} on {c}'[:600])
